@@ -224,6 +224,74 @@ def rule_cbzero(ctx, rep, rule="R-CBZERO"):
     return n
 
 
+def rule_writeback(ctx, rep, rule="R-WRITEBACK"):
+    """A function that reads a handle out of its `&mut` parameter (bitwise copy) and lets a callee work on the copy must, on every exit
+    that follows a re-pointing of that copy - unwinding included - write the copy back; otherwise the caller's handle keeps pointing at a
+    block whose count the callee has already given back."""
+    n = 0
+    for tag, F, E in ctx.each():
+        A = analysis(tag, F, E)
+        for b in F.body_list:
+            if b["kind"] not in ("Fn", "AssocFn") or b["key"] in A.errors:
+                continue
+            if not any(F.ty(t)["k"] == "ref" and F.ty(t)["mut"] and F.tokens(F.ty(t)["t"])[0] > 0 for t in b.get("inputs", [])):
+                continue
+            key = b["key"]
+            seen_site = False
+            bad = None
+            for p in A.paths[key]:
+                if p.exit not in ("ret", "unw"):
+                    continue
+                ev = p.events
+                i_read = next((i for i, e in enumerate(ev) if e["kind"] == "MAKE" and isinstance(e["detail"], dict) and str(e["detail"].get("via", "")).endswith("ptr::read")), None)
+                if i_read is None:
+                    continue
+                seen_site = True
+                i_rt = next((i for i, e in enumerate(ev) if i > i_read and vget(e["vec"], "retgt") > 0 and e["kind"] in ("CALL", "HO")), None)
+                if i_rt is None:
+                    continue
+                wrote = False
+                for e in ev[i_rt + 1 :]:
+                    d = e["detail"] if isinstance(e["detail"], dict) else {}
+                    if e["kind"] == "HIDE" and "write" in str(d.get("via", "")):
+                        wrote = True
+                    if e["kind"] == "DROP" and guard_writes_back(F, A, d.get("adt")):
+                        wrote = True
+                if not wrote and bad is None:
+                    bad = p
+            if not seen_site:
+                continue
+            n += 1
+            if bad is not None:
+                rep.bad(rule, key, path_report(F, b, bad, "the handle was read out of `&mut self`, a callee re-pointed the copy (it released the old block and now owns a new one), and this %s exit leaves without writing the copy back: the caller's handle still points at the released block (use-after-free) and the new block leaks" % ("unwinding" if bad.exit == "unw" else "normal")), F.loc(b), tag)
+            else:
+                rep.ok(rule, key, cfg=tag)
+    return n
+
+
+def guard_writes_back(F, A, adt_path):
+    """Is `adt_path` a local guard type whose destructor, on every returning path, stores a handle back through a reference
+    (ptr::write of a handle, or an assignment into a handle / a handle's pointer field)?"""
+    dk = F.drop_impls.get(adt_path)
+    if dk is None or F.path_to_handle.get(adt_path) is not None:
+        return False
+    n = 0
+    for p in A.paths.get(dk, []):
+        if p.exit != "ret":
+            continue
+        n += 1
+        ok = False
+        for e in p.events:
+            d = e["detail"] if isinstance(e["detail"], dict) else {}
+            if e["kind"] == "HIDE" and "write" in str(d.get("via", "")):
+                ok = True
+            if e["kind"] == "RETARGET":
+                ok = True
+        if not ok:
+            return False
+    return n > 0
+
+
 def count_sites(F):
     """All atomic call sites: [(body, bb, term, model class)]."""
     from . import model
